@@ -181,6 +181,35 @@ pub fn uadv(thorough: bool) -> Vec<(String, Pats)> {
         v.push((format!("spread{}", n), bytes.iter().map(|&x| vec![b'x', x]).collect()));
         v.push((format!("deepspread{}", n), bytes.iter().map(|&x| vec![b'k', b'e', b'y', x, b'e']).collect()));
     }
+    // a node that is dense only because of its fan-out (>= 128 children),
+    // whose failure link leads to a NON-dense state (one / few transitions),
+    // at depth 2 and below every dense depth
+    for n in [128usize, 200] {
+        let mut pats: Pats = (0..n).map(|i| vec![b'a', b'x', (0x38 + i) as u8]).collect();
+        pats.push(b("xq"));
+        v.push((format!("widefail{}", n), pats));
+        let mut pats: Pats = (0..n).map(|i| vec![b'x', b'a', b'b', b'c', (0x38 + i) as u8]).collect();
+        pats.push(b("abcq"));
+        pats.push(b("bcr"));
+        v.push((format!("deepwidefail{}", n), pats));
+    }
+    // pattern ids that collide modulo 64 (and modulo 128) inside one match
+    // list: ids 64+i ("z"+q_i) and i (q_i) share a state; 128 / 129 duplicate
+    // 0 / 64
+    {
+        let q: Pats = (0..64usize).map(|i| vec![b'A' + (i % 26) as u8, b'a' + (i / 26) as u8]).collect();
+        let mut pats: Pats = q.clone();
+        pats.extend(q.iter().map(|p| {
+            let mut z = vec![b'z'];
+            z.extend_from_slice(p);
+            z
+        }));
+        pats.push(q[0].clone());
+        let mut z = vec![b'z'];
+        z.extend_from_slice(&q[0]);
+        pats.push(z);
+        v.push(("ids-mod64".into(), pats));
+    }
     // number of patterns around the automatic kind switch (<= 100 -> DFA)
     for n in [100usize, 101] {
         let pats: Pats = (0..n).map(|i| format!("k{}", i).into_bytes()).collect();
